@@ -175,6 +175,9 @@ pub fn templates() -> Vec<(&'static str, Vec<u16>, bool)> {
     // packed strings with a zero low byte in front of a character, first and in the middle
     v.push(("putsp-zero-low-byte", vec![0x3000, 0xE002, 0xF024, 0xF025, 0x4241, 0x5800, 0x4443, 0x0000], false));
     v.push(("putsp-zero-low-byte", vec![0x3000, 0xE002, 0xF024, 0xF025, 0x5800, 0x4241, 0x0000], false));
+    // unpacked strings with a word xNN00 in the middle and in front: only x0000 ends the string
+    v.push(("puts-zero-low-byte", vec![0x3000, 0xE002, 0xF022, 0xF025, 0x0041, 0x0100, 0x0042, 0x0000], false));
+    v.push(("puts-zero-low-byte", vec![0x3000, 0xE002, 0xF022, 0xF025, 0x5800, 0x0041, 0x0000], false));
     // OUT of every byte value, one image each for four ranges
     for chunk in 0..4u16 {
         // build: for k in 0..64: LD R0, table[k] ; OUT  -- table follows the code
